@@ -7,6 +7,8 @@ mode
   sigint-after-pop   : SIGINT (Ctrl-C) right after the broker handed a message to the loop, before the claim
   sigterm-after-pop  : the same with SIGTERM
   sigterm-in-reclaim : SIGTERM while the loop looks at the waiting marks in `_reclaim_available_slots` (one task is RUNNING)
+  sigint-twice / sigterm-twice : two tasks RUNNING, the signal, and the SAME signal again while the stop is under way (right after the first
+                       invocation has been killed and re-routed): an impatient operator, a supervisor that repeats its TERM
 Afterwards a second runner object polls and runs, and both recovery tasks run (virtual time is not used: timeouts are zero).
 Output: one JSON line {stop_completed, raised, status_after_stop, owner_after_stop, queued_after_stop, final_status}.
 """
@@ -43,7 +45,30 @@ def main() -> int:
     runner = app.runner
     sent = []
     sig = signal.SIGINT if mode.startswith("sigint") else signal.SIGTERM
-    if mode.endswith("after-pop"):
+    inv2 = None
+    if mode.endswith("-twice"):
+        inv2 = task("ok2", 0.31)
+        real_kr = runner._kill_and_reroute
+
+        def kr(invocation_id, *aa, **kw):  # type: ignore[no-untyped-def]
+            r = real_kr(invocation_id, *aa, **kw)
+            if len(sent) == 1:
+                sent.append(2)
+                os.kill(os.getpid(), sig)       # the same signal again, the stop is half-way
+                time.sleep(0.05)
+            return r
+
+        runner._kill_and_reroute = kr  # type: ignore[method-assign]
+
+        def first() -> None:
+            t0 = time.time()
+            while time.time() - t0 < 8 and not all(o.get_invocation_status(i.invocation_id).value == "running" for i in (inv, inv2)):
+                time.sleep(0.002)
+            sent.append(1)
+            os.kill(os.getpid(), sig)
+
+        threading.Thread(target=first, daemon=True).start()
+    elif mode.endswith("after-pop"):
         real = b.retrieve_invocation
 
         def pop():  # type: ignore[no-untyped-def]
@@ -102,6 +127,15 @@ def main() -> int:
     for x in q:
         b.route_invocation(x)
     res.update(status_after_stop=st.status.value, owner_after_stop=st.runner_id, queued_after_stop=q.count(inv.invocation_id))
+    if inv2 is not None:
+        # the worse of the two invocations is reported
+        def fine(rec, n):  # type: ignore[no-untyped-def]
+            return rec.status.value in ("success", "failed") or (rec.status.value in ("registered", "rerouted", "retry") and rec.runner_id is None and n >= 1)
+
+        st2 = o.get_invocation_status_record(inv2.invocation_id)
+        res["signals_sent"] = len(sent)
+        if fine(st, q.count(inv.invocation_id)) and not fine(st2, q.count(inv2.invocation_id)):
+            res.update(status_after_stop=st2.status.value, owner_after_stop=st2.runner_id, queued_after_stop=q.count(inv2.invocation_id))
     # a surviving runner and the recovery services
     cB = rctx("rSurvivor")
     r2 = ThreadRunner(app, runner_context=cB)
